@@ -75,7 +75,7 @@ Lemma fold_steps_from_lit l r : fold_steps (RLit l) r -> r = RLit l.
 Proof. intros H. inversion H as [|? y ? S R]; subst; [reflexivity|]. exfalso.
   match goal with X : fold_step (RLit _) _ |- _ => exact (fold_step_from_lit _ _ X) end. Qed.
 Lemma is_null_inv a : is_null a = true -> a = RLit LNull.
-Proof. destruct a as [|[| | | |]| |]; cbn; intros; try discriminate; reflexivity. Qed.
+Proof. destruct a as [|[| | | | |]| |]; cbn; intros; try discriminate; reflexivity. Qed.
 Lemma fold_step_src_not_null a a' : fold_step a a' -> is_null a = false.
 Proof.
   intros H. destruct (is_null a) eqn:E; [|reflexivity]. apply is_null_inv in E. subst. exfalso. exact (fold_step_from_lit _ _ H).
@@ -159,13 +159,13 @@ Lemma is_null_normalize a : is_null (normalize a) = is_null a.
 Proof.
   destruct a as [i|l|n args|cs]; try reflexivity.
   cbn [normalize]. destruct (leqb n n_eq); [|reflexivity].
-  destruct (map normalize args) as [|[i|[| | | |]|m x|cs] [|b [|c t]]]; reflexivity.
+  destruct (map normalize args) as [|[i|[| | | | |]|m x|cs] [|b [|c t]]]; reflexivity.
 Qed.
 
 Lemma swap_null_eq env args :
   eval_r env (match args with [RLit LNull; r] => ROp n_eq [r; RLit LNull] | _ => ROp n_eq args end) = eval_r env (ROp n_eq args).
 Proof.
-  destruct args as [|a [|b [|c t]]]; try reflexivity; destruct a as [i|[| | | |]|m x|cs]; try reflexivity.
+  destruct args as [|a [|b [|c t]]]; try reflexivity; destruct a as [i|[| | | | |]|m x|cs]; try reflexivity.
   change n_eq with (expand_binop B_Eq). rewrite !eval_r_std. cbn [rq_reversed is_eq_op is_null orb].
   rewrite orb_true_r. destruct (is_null b) eqn:E; [|reflexivity].
   apply is_null_inv in E. subst b. reflexivity.
@@ -201,7 +201,7 @@ Lemma null_on_the_right_swap args :
   null_on_the_right (match args with [RLit LNull; r] => ROp n_eq [r; RLit LNull] | _ => ROp n_eq args end) = true.
 Proof.
   intros H.
-  destruct args as [|a [|b [|c t]]]; try (destruct a as [i|[| | | |]|m x|cs]);
+  destruct args as [|a [|b [|c t]]]; try (destruct a as [i|[| | | | |]|m x|cs]);
     cbn [null_on_the_right is_null negb orb]; rewrite ?leqb_refl; try (rewrite H; reflexivity).
   cbn [forallb null_on_the_right] in H |- *.
   destruct (null_on_the_right b); destruct (is_null b); cbn in *; congruence.
@@ -218,4 +218,14 @@ Proof.
     + cbn [null_on_the_right]. rewrite A, E. reflexivity.
   - cbn [normalize null_on_the_right]. induction IH as [|[c v] t [Hc Hv] Ht IHt]; [reflexivity|].
     cbn [map forallb fst snd] in *. rewrite Hc, Hv, IHt. reflexivity.
+Qed.
+
+(* ================= date/time literals ================= *)
+(* /repo 1aeb8d9 (F17): `==` / `!=` of two date/time literals is never decided at compile time *)
+Lemma temporal_comparison_kept k s k' s' n : n = n_eq \/ n = n_ne ->
+  static_eval_op n [RLit (LTemporal k s); RLit (LTemporal k' s')] = ROp n [RLit (LTemporal k s); RLit (LTemporal k' s')].
+Proof.
+  intros [->| ->]; unfold static_eval_op; cbn [is_temporal_lit negb];
+    repeat (match goal with |- context [leqb ?a ?b] => let v := eval vm_compute in (leqb a b) in change (leqb a b) with v end);
+    cbv iota; rewrite andb_false_r; reflexivity.
 Qed.
